@@ -245,6 +245,8 @@ func (g *Gen) next0(s Snap, remaining int) Op {
 			o.Which = 0
 		case x < 15:
 			o.Add = 0
+		case x >= 90: // the bridge denom of another registered token (the payer holds it)
+			o.Token = 1 + (o.Token+r.Intn(3))%4
 		case x < 18:
 			o.Add = 100000
 		}
